@@ -8,6 +8,7 @@ from . import extract
 from .core import ClassDecl, Exc, FnDecl, Frame, Path, Unsupported
 from .sem_stmt import NEXT, LoopSpec
 from .types import *  # noqa: F401,F403
+from .types import beta_select
 from .types import (BOOL, INT, NULL, STR, TBag, TInt, TMap, TOpt, TRec, TRef, TSeq, TSet, TStr, TTup, V, VBag, VBool,
                     VClass, VFunc, VInt, VMap, VModule, VNone, VOpaque, VOpt, VRec, VRef, VSeq, VSet, VStr, VTup,
                     coerce, fresh_name, ite, val_eq)
@@ -620,6 +621,10 @@ class CallMixin:
                 r = self.map_comprehension(q, node, g, seq, kind)
                 if r is not None:
                     return r
+            if pure and spec is None and kind == "dict" and not g.ifs:
+                r = self.dict_map_comprehension(q, node, g, seq)
+                if r is not None:
+                    return r
             if pure and spec is None and kind in ("list", "gen") and g.ifs:
                 r = self.filter_comprehension(q, node, g, seq, kind)
                 if r is not None:
@@ -665,9 +670,17 @@ class CallMixin:
             r = self.ev(node.elt, q)
         except Unsupported:
             return None
-        if len(r) != 1 or isinstance(r[0][1], Exc):
+        normal = [(qq, vv_) for qq, vv_ in r if not isinstance(vv_, Exc)]
+        if len(normal) != 1:
             return None
-        q2, v = r[0]
+        if len(r) > 1 and not self.lenient:
+            # exceptional branches of the element expression must be infeasible (obligations), see dict_map_comprehension
+            for qq, vv_ in r:
+                if isinstance(vv_, Exc):
+                    self.oblige(qq, z3.BoolVal(False), "comprehension-element-cannot-raise", f"{vv_.cls}@L{node.lineno}")
+        elif len(r) > 1:
+            return None
+        q2, v = normal[0]
         if isinstance(v, VNone):
             return None
         if v.ty is None or isinstance(v, VTup) and v.ty is None:
@@ -687,6 +700,62 @@ class CallMixin:
         if kind == "list":
             return [(p, self.new_box(p, "list", [v.ty], out))]
         return [(p, out)]
+
+    def dict_map_comprehension(self, p, node, g, seq):
+        """{k(x): v(x) for x in seq} with pure, non-raising k and v: the dictionary whose domain is {k(x_j)} and whose value
+        at a key is v(x_w) for the LAST position w carrying that key (later entries overwrite earlier ones).  `w` is an
+        uninterpreted witness function constrained by: for every j, key(j) is in the domain, j <= w(key(j)) < len and
+        key(w(key(j))) == key(j)  (a definitional extension: such a position always exists).  The insertion order of the
+        keys is left unconstrained (only look-ups are modelled)."""
+        i = z3.Int(fresh_name("di"))
+        q = p.copy()
+        cur = seq.at(i)
+        res = self.assign(g.target, cur, q)
+        if len(res) != 1 or res[0][1] is not NEXT:
+            return None
+        n0 = len(q.pc)
+        q.assume(z3.And(0 <= i, i < seq.len))
+        self.assume_typed(q, cur)
+        try:
+            r = self.ev_list([node.key, node.value], q)
+        except Unsupported:
+            return None
+        normal = [(qq, vv_) for qq, vv_ in r if not isinstance(vv_, Exc)]
+        if len(normal) != 1:
+            return None
+        # an element expression that could raise (e.g. an attribute of a possibly-null element) is not a pure map: each
+        # exceptional branch must be infeasible - an obligation, discharged like any other
+        for qq, vv_ in r:
+            if isinstance(vv_, Exc):
+                self.oblige(qq, z3.BoolVal(False), "comprehension-element-cannot-raise", f"{vv_.cls}@L{node.lineno}")
+        r = normal
+        q2, (kv, vv) = r[0]
+        if kv.ty is None or vv.ty is None or isinstance(kv, (VNone, VOpaque)) or isinstance(vv, (VNone, VOpaque)):
+            return None
+        for c in q2.pc[n0 + 1:]:
+            p.assume(z3.ForAll([i], z3.Implies(z3.And(0 <= i, i < seq.len), c)))
+        p.heap = q2.heap
+        kty, vty = kv.ty, vv.ty
+        ks = kty.sorts()
+        karr = [z3.Lambda([i], c) for c in kv.comps()]
+        varr = [z3.Lambda([i], c) for c in vv.comps()]
+        wit = z3.Function(fresh_name("dictw"), *ks, z3.IntSort())
+        kx = [z3.Const(fresh_name("dk"), so) for so in ks]
+        j = z3.Int(fresh_name("dj"))
+        in_dom = z3.Exists([j], z3.And(0 <= j, j < seq.len, *[beta_select(a, j) == x for a, x in zip(karr, kx)]))
+        dom = z3.Lambda(kx, in_dom)
+        vals = [z3.Lambda(kx, beta_select(a, wit(*kx))) for a in varr]
+        keyj = [beta_select(a, j) for a in karr]
+        w = wit(*keyj)
+        p.assume(z3.ForAll([j], z3.Implies(z3.And(0 <= j, j < seq.len),
+                                           z3.And(j <= w, w < seq.len, *[beta_select(a, w) == kj for a, kj in zip(karr, keyj)])),
+                           patterns=[wit(*keyj)] if not any(z3.is_quantifier(a) for a in karr) else []))
+        from .types import TMap, VMap
+        mty = TMap(kty, vty, ordered=True)
+        keys = TSeq(kty).fresh("dkeys")
+        p.assume(keys.len >= 0)
+        m = VMap(dom, vals, keys, mty)
+        return [(p, self.new_box(p, "dict", [kty, vty], m))]
 
     def filter_comprehension(self, p, node, g, seq, kind):
         return None
